@@ -444,6 +444,9 @@ class Interp:
             if v.ty is BYTES:
                 return z3.Length(v.t) != 0
             if v.ty is OBJ or v.ty is STR:
+                h = getattr(self.ctx.unit, "obj_truth", None)  # a unit may give opaque objects an arbitrary truth value
+                if h is not None and v.ty is OBJ:
+                    return h(v.t)
                 return v.t != 0
             if isinstance(v.ty, RefT):
                 ci = CLASSES[v.ty.cls]
